@@ -334,7 +334,24 @@ fn run_case(c: &WtCase, stride: usize, phase: usize, st: &mut Stats) -> Vec<Viol
         st.inc("sessions_after_drafts");
     }
     let r = sweep(&info, &mut lsp, stride, phase, st);
-    let published: usize = lsp.diags.values().map(|d| d.len()).sum();
+    // the one diagnostic expected in a valid workspace: the overflowing literal some sessions put on line 0
+    let published: usize = lsp
+        .diags
+        .values()
+        .map(|d| {
+            d.iter()
+                .filter(|x| {
+                    !(c.printed[0].text.starts_with(OVERFLOWING_LITERAL)
+                        && x["range"]["start"]["line"] == 0
+                        && x["range"]["end"]["line"] == 0
+                        && x["range"]["end"]["character"].as_u64().unwrap_or(99) <= OVERFLOWING_LITERAL.len() as u64)
+                })
+                .count()
+        })
+        .sum();
+    if c.printed[0].text.starts_with(OVERFLOWING_LITERAL) {
+        st.inc("sessions_with_an_overflowing_literal_in_front");
+    }
     let out = match r {
         Ok(v) => {
             if published > 0 {
@@ -372,6 +389,9 @@ impl Workload for Navigation {
         } else if idx % 4 == 0 {
             with_tight(&mut c);
         }
+        if idx % 8 == 6 {
+            with_overflowing_literal(&mut c);
+        }
         let v = run_case(&c, self.stride, idx as usize, st);
         st.nontrivial(hash64(&c.sources.files));
         st.sample(|| json!({"sources": c.sources.to_json()}));
@@ -389,6 +409,9 @@ impl Workload for Navigation {
             with_trivia(&mut c, seed, "c17", idx);
         } else if idx % 4 == 0 {
             with_tight(&mut c);
+        }
+        if idx % 8 == 6 {
+            with_overflowing_literal(&mut c);
         }
         run_case(&c, 1, 0, st)
     }
